@@ -64,27 +64,27 @@ func quietLogger() *logrus.Logger {
 
 type kvRun struct {
 	forceMain bool
-	hotA   int
-	hotK   string
-	hotSet bool
-	prop   string
-	cfg    kvCfg
-	dir    string
-	ldb    storage.Storage
-	sl     ledger2.StateLedger
-	view   ledger2.StateLedger
-	m      *model.KV
-	h      uint64
-	snaps  []int // ledger snapshot ids, parallel to model snapshot indexes
-	viols  []poolViol
-	stats  map[string]int64
-	shape  map[string]bool
-	ops    []kvOp
-	rng    *rand.Rand // only for which subset of reads to perform
-	byH    map[uint64]*model.KV
-	rootAt map[uint64]string
-	blkOps map[uint64][]kvOp // ops of the block that produced height h
-	curOps []kvOp
+	hotA      int
+	hotK      string
+	hotSet    bool
+	prop      string
+	cfg       kvCfg
+	dir       string
+	ldb       storage.Storage
+	sl        ledger2.StateLedger
+	view      ledger2.StateLedger
+	m         *model.KV
+	h         uint64
+	snaps     []int // ledger snapshot ids, parallel to model snapshot indexes
+	viols     []poolViol
+	stats     map[string]int64
+	shape     map[string]bool
+	ops       []kvOp
+	rng       *rand.Rand // only for which subset of reads to perform
+	byH       map[uint64]*model.KV
+	rootAt    map[uint64]string
+	blkOps    map[uint64][]kvOp // ops of the block that produced height h
+	curOps    []kvOp
 	// (addr|key) committed keys whose latest write in some block after height h was a
 	// non-journaled Add over an existing value: lastAddOver[key] = heights where that happened
 	addOver map[string][]uint64
